@@ -1,0 +1,74 @@
+//go:build verif
+
+package store
+
+// Verification seam for property C09 (crash-consistent commit). Add-only, compiled only with
+// `-tags verif`. VerifC09OpenStoreFS is NewStore with the file system supplied by the caller:
+// the pebble options below are a verbatim mirror of NewStore's (store.go) and must be kept
+// in step with it.
+
+import (
+	"time"
+
+	"github.com/canopy-network/canopy/lib"
+	"github.com/cockroachdb/pebble/v2"
+	"github.com/cockroachdb/pebble/v2/sstable"
+	"github.com/cockroachdb/pebble/v2/vfs"
+)
+
+// VerifC09PebbleOptions returns the options NewStore passes to pebble.Open, with FS set.
+func VerifC09PebbleOptions(fs vfs.FS, config lib.Config, log lib.LoggerI) (*pebble.Options, func()) {
+	cache := pebble.NewCache(256 << 20) // 256 MB cache
+	lvl := pebble.LevelOptions{
+		BlockSize:      64 << 10, // 64 KB data blocks
+		IndexBlockSize: 32 << 10, // 32 KB index blocks
+		Compression: func() *sstable.CompressionProfile {
+			profile := getCompressionProfile(config.CompressionProfile)
+			logOnce.Do(func() {
+				log.Debugf("Using %s compression for sstables", profile.Name)
+			})
+			return profile
+		},
+	}
+	return &pebble.Options{
+		FS:                    fs,
+		MemTableSize:          64 << 20,
+		L0CompactionThreshold: 6,
+		L0StopWritesThreshold: 12,
+		MaxOpenFiles:          5000,
+		Cache:                 cache,
+		FormatMajorVersion:    pebble.FormatColumnarBlocks,
+		LBaseMaxBytes:         512 << 20,
+		Levels: [7]pebble.LevelOptions{
+			lvl, lvl, lvl, lvl, lvl, lvl, lvl,
+		},
+		TargetFileSizes: [7]int64{
+			32 << 20,
+			64 << 20,
+			128 << 20,
+			128 << 20,
+			128 << 20,
+			128 << 20,
+			128 << 20,
+		},
+		Logger:                  log,
+		BlockPropertyCollectors: []func() pebble.BlockPropertyCollector{newVersionedPropertyCollector},
+		WALMinSyncInterval: func() time.Duration {
+			return time.Millisecond * 2
+		},
+	}, cache.Unref
+}
+
+// VerifC09OpenStoreFS opens (or creates) the store at dir on fs exactly as NewStore does on the OS file system.
+func VerifC09OpenStoreFS(fs vfs.FS, dir string, config lib.Config, log lib.LoggerI) (*Store, lib.ErrorI) {
+	opts, unref := VerifC09PebbleOptions(fs, config, log)
+	defer unref()
+	db, err := pebble.Open(dir, opts)
+	if err != nil {
+		return nil, ErrOpenDB(err)
+	}
+	return NewStoreWithDB(config, db, nil, log)
+}
+
+// VerifC09PurgeBlockCache empties the process-wide block LRU of the indexer (a fresh process starts with it empty).
+func VerifC09PurgeBlockCache() { blockCache.Purge() }
